@@ -331,6 +331,9 @@ func init() {
 		Spaces: func(tier string) []*core.Space {
 			var sp []*core.Space
 			cfgs := c07Configs()
+			// C07 only: names an exemption for "_" (and "_G") could swallow by mistake
+			names := scopeSpaceDef{name: "unused-locals-named-like-the-exempt-ones", others: otherVariants[:1], fixed: c07NameShapes()}
+			sp = append(sp, c07Space(names, cfgs[0]), c07Space(names, cfgs[1]))
 			for _, d := range scopeSpaces(tier) {
 				sp = append(sp, c07Space(d, cfgs[0]))
 			}
@@ -343,4 +346,16 @@ func init() {
 			return sp
 		},
 	})
+}
+
+// c07NameShapes: unread locals whose names begin or end with an underscore, or begin with _G: only "_" itself is exempt
+// in the reference (the server also exempts "_G", which no shape declares).
+func c07NameShapes() [][]string {
+	return [][]string{
+		{"local _a = 1", "local b = 3", "do local _b = b end"},
+		{"local _tmp, __ = 1, 2", "print(__)"},
+		{"local _1 = 1", "local G = 2", "local _g = 3", "local _Gx = 4"},
+		{"local a_ = 1", "local _ = 2", "local _x_ = a_"},
+		{"local _a = 1", "_a = 2", "local function f() local _inner = 1 _inner = 2 end", "f()"},
+	}
 }
